@@ -2,6 +2,7 @@
 Require Import Pearl.Base.Prelude Pearl.Base.LE Pearl.Generated.Consts Pearl.Format.Record Pearl.Blob.Scan
                Pearl.Blob.ScanBasics Pearl.Blob.ScanProofs.
 
+Require Pearl.Generated.Facts.
 (* THE theorem: for EVERY well-formed blob (any number of records, any key length K, any metadata and data of any size) and EVERY byte length n at which the file may be cut by a crash, the exact outcome of opening the first n bytes (Blob::from_file + index regeneration scan), in BOTH validation modes: a prefix of the records exactly at record boundaries; EBincode when the cut is inside the blob header; and EBincode when the cut is anywhere strictly inside a record -- header, metadata or data alike. EBincode = the blob is moved to the corrupted blobs (quarantine). Before commit 865f94b of the code a record whose header was complete but whose metadata/data was cut was ACCEPTED whenever its data was not read back (validation off, or empty data): finding F6. *)
 Theorem C06_scan_every_prefix :
   forall K rs n v, wf_recs K rs -> (n <= length (blob_bytes rs))%nat ->
@@ -44,6 +45,16 @@ Theorem C06_torn_empty_record_rejected :
   blob_open_scan z_cut 4 true = RFail EBincode /\ blob_open_scan z_cut 4 false = RFail EBincode.
 Proof. exact empty_data_torn_meta_rejected. Qed.
 
+(* ---- structural facts re-extracted from the Rust source on every run (tools/extract_src.py, Generated/Facts.v):
+   the orderings inside the code that the models used above assume. A change of the code that invalidates one turns
+   the generated boolean into `false` and this file no longer compiles. ---- *)
+(* Blob/Scan.v scan_loop checks cur1 + data_size against the file length after the meta size was added and before the data is read *)
+Theorem C06_source_scan_checks_record_end : Pearl.Generated.Facts.SCAN_CHECKS_RECORD_END = true.
+Proof. reflexivity. Qed.
+(* an index file older than its blob is never trusted after a crash *)
+Theorem C06_source_index_size_must_be_equal : Pearl.Generated.Facts.INDEX_BLOB_SIZE_MUST_BE_EQUAL = true.
+Proof. reflexivity. Qed.
+
 Print Assumptions C06_scan_every_prefix.
 Print Assumptions C06_scan_complete.
 Print Assumptions C06_truncation_never_fails_init.
@@ -51,3 +62,5 @@ Print Assumptions C06_served_iff_boundary.
 Print Assumptions C06_only_version_fails_init.
 Print Assumptions C06_torn_record_rejected.
 Print Assumptions C06_torn_empty_record_rejected.
+Print Assumptions C06_source_scan_checks_record_end.
+Print Assumptions C06_source_index_size_must_be_equal.
